@@ -13,7 +13,7 @@ import (
 func init() {
 	register(Property{
 		ID:          "C13",
-		Explanation: "Decided statically: R1 every store into the name->object tables (Types/Constants/Functions) is dominated by a package-scope test on the stored object (obj.Parent() == pkg.Scope(), or objects taken from Scope().Names()/Lookup); R2 the methods map is keyed - at every store and lookup - by the declared named type ((*types.Named).Origin()), so generic receivers are grouped under the declaration; R3 in Load's registering closure no path leads from the construction of a package record (which reads the universe for its imports) to a recursive registration, every call of the closure is dominated by an absence test on the universe for the same package, and the record is stored after construction; R4 MethodsOf(T,false) keeps a method iff its receiver type is not a pointer; R5 the receiver classification and the filter look through aliases. R6 the read accessors of a loaded package are plain reads of what Load stored, and SourceDir derives the directory from Dir and Path of one and the same module value; R7 methods of the loaded package / universe write no receiver state after Load, except the reviewed idempotent SourceDir memo. R3 also: every iteration of the loop over a package's imports registers the import unless the universe already has it; R8 no caller in the library stores into, deletes from or clears a map obtained from a method of a loaded package or the universe. R7 also: no append into, and no element store through, a slice that shares its backing array with the loaded record (reslices, locals with several definitions). R6 also: every return of the SourceDir computation is the join, the module's Dir, the empty string, the memo or the computed value. R7 also covers methods of types embedding the package record and mutating methods of sync.Map/sync.Pool fields. R3 also: the constructed record is stored on every path from newPkg to the end of the registering closure. R9 no field of a loaded packages.Package / packages.Module is assigned in the library. R3 also: the loop over a package's imports dominates the construction of its record; R10 nothing is taken out of a declaration table again (only init / _ may be deleted from the functions table). NOT decided: value-level equality of the tables with Scope().Names() for every loaded package; SourceDir()/LocateInPackage agreement with the file system (derived from Module.Dir, an environment fact). Round 8: R11 a ParseFile hook of the loader's configuration hands fset, filename and src to go/parser.ParseFile unchanged (positions carry the file names the go command listed; there is no hook today).",
+		Explanation: "Decided statically: R1 every store into the name->object tables (Types/Constants/Functions) is dominated by a package-scope test on the stored object (obj.Parent() == pkg.Scope(), or objects taken from Scope().Names()/Lookup); R2 the methods map is keyed - at every store and lookup - by the declared named type ((*types.Named).Origin()), so generic receivers are grouped under the declaration; R3 in Load's registering closure no path leads from the construction of a package record (which reads the universe for its imports) to a recursive registration, every call of the closure is dominated by an absence test on the universe for the same package, and the record is stored after construction; R4 MethodsOf(T,false) keeps a method iff its receiver type is not a pointer; R5 the receiver classification and the filter look through aliases. R6 the read accessors of a loaded package are plain reads of what Load stored, and SourceDir derives the directory from Dir and Path of one and the same module value; R7 methods of the loaded package / universe write no receiver state after Load, except the reviewed idempotent SourceDir memo. R3 also: every iteration of the loop over a package's imports registers the import unless the universe already has it; R8 no caller in the library stores into, deletes from or clears a map obtained from a method of a loaded package or the universe. R7 also: no append into, and no element store through, a slice that shares its backing array with the loaded record (reslices, locals with several definitions). R6 also: every return of the SourceDir computation is the join, the module's Dir, the empty string, the memo or the computed value. R7 also covers methods of types embedding the package record and mutating methods of sync.Map/sync.Pool fields. R3 also: the constructed record is stored on every path from newPkg to the end of the registering closure. R9 no field of a loaded packages.Package / packages.Module is assigned in the library. R3 also: the loop over a package's imports dominates the construction of its record; R10 nothing is taken out of a declaration table again (only init / _ may be deleted from the functions table). NOT decided: value-level equality of the tables with Scope().Names() for every loaded package; SourceDir()/LocateInPackage agreement with the file system (derived from Module.Dir, an environment fact). Round 8: R11 a ParseFile hook of the loader's configuration hands fset, filename and src to go/parser.ParseFile unchanged (positions carry the file names the go command listed; there is no hook today). Round 9: R12 LocateInPackage answers a package only under filepath.Dir(Position(pos).Filename) == its SourceDir().",
 		Assumptions: commonAssumptions,
 		Run:         runC13,
 	})
